@@ -50,7 +50,7 @@ for fn, rs in groups.items():
 for fn, n, d in sorted(summary, key=lambda x: -x[1]):
     print("%3d sites %3d demonstrated  %s" % (n, d, fn))
 print("total open", len(open_new), "demonstrated", len(demo), "groups", len(groups), "groups with demo", sum(1 for _, n, d in summary if d))
-json.dump({"demo": demo, "groups": {fn: [r["key"] for r in rs] for fn, rs in groups.items()}}, open("/tmp/c06_triage.json", "w"), indent=1)
+json.dump({"demo": demo, "groups": {fn: [r["key"] for r in rs] for fn, rs in groups.items()}}, open("/verif/findings/c06_triage.json", "w"), indent=1)
 
 # ---- second source: enumerated demo cases on the current tree (/tmp/kf_enum.txt: test \t loc | frames \t case \t msg)
 enum_by_line = collections.defaultdict(list)
@@ -82,4 +82,4 @@ for fn, rs in groups.items():
 for fn, n, d in sorted(summary, key=lambda x: -x[1]):
     print("%3d sites %3d demonstrated  %s" % (n, d, fn))
 print("groups", len(groups), "with demo", sum(1 for _, n, d in summary if d), "sites", len(open_new), "demonstrated", len(alld))
-json.dump({"demo": demo, "demo2": demo2, "groups": {fn: [r["key"] for r in rs] for fn, rs in groups.items()}, "rows": {r["key"]: r for r in open_new}}, open("/tmp/c06_triage.json", "w"), indent=1)
+json.dump({"demo": demo, "demo2": demo2, "groups": {fn: [r["key"] for r in rs] for fn, rs in groups.items()}, "rows": {r["key"]: r for r in open_new}}, open("/verif/findings/c06_triage.json", "w"), indent=1)
